@@ -247,6 +247,10 @@ func fixedRenew() []NScenario {
 		{Script: []Item{okItem(0, 100*sec), okItem(0, 10*mnt), okItem(0, 10*mnt)}, Steps: wakes(9)},
 		{Dir: true, Script: []Item{okItem(-mnt, 5*mnt), {Kind: kFail}, {Kind: kFail}, okItem(0, 3*mnt), okItem(hr, 2*hr)}, Steps: wakes(12)},
 		{Script: []Item{okItem(0, 2*hr), okItem(0, hr)}, Steps: wakes(64)},
+		// dir.Write fails during a renewal (and as the very first fetch): nothing published, SVID kept, retried
+		{Dir: true, Script: []Item{okItem(0, hr), {Kind: kWriteErr, A: 0, B: hr}, {Kind: kWriteErr, A: 0, B: hr}, okItem(0, hr)}, Steps: steps(30*mnt, 10*sec, 5*sec, 5*sec, 31*mnt)},
+		{Dir: true, Script: []Item{{Kind: kWriteErr, A: 0, B: hr}}, Steps: steps(hr)},
+		{Dir: false, Script: []Item{okItem(0, hr), {Kind: kWriteErr, A: 0, B: hr}}, Steps: steps(30*mnt, 30*mnt)},
 		// sub-second clock steps
 		{Script: []Item{okItem(0, 3*sec), okItem(0, 3*sec)}, Steps: steps(700*int64(time.Millisecond), 700*int64(time.Millisecond), 700*int64(time.Millisecond), 700*int64(time.Millisecond))},
 	}
@@ -327,7 +331,11 @@ func randomRenew(r *lib.Rand) NScenario {
 		case k < 16:
 			sc.Script = append(sc.Script, Item{Kind: kFail})
 		case k < 17:
-			sc.Script = append(sc.Script, Item{Kind: kAnchorErr, A: 0, B: lifetimes[r.Intn(len(lifetimes))]})
+			kind := kAnchorErr
+			if r.Bool() {
+				kind = kWriteErr
+			}
+			sc.Script = append(sc.Script, Item{Kind: kind, A: 0, B: lifetimes[r.Intn(len(lifetimes))]})
 		case k < 18:
 			sc.Script = append(sc.Script, Item{Kind: kEmpty})
 		default:
